@@ -1,20 +1,21 @@
 /-
-Helper lemmas for property C07: running the step programs of `KinModel/Request.lean` (`thePrograms`) gives the
-loop-free formulation (`runSecurity`, `overridden`, `visitedParams`, `failing`). Property theorems: `Props/C07.lean`.
+Helper lemmas for property C07: running the step programs of `KinModel/RequestFlow.lean` (`thePrograms`) gives the
+loop-free formulation (`runSecurity`, `overridden`, `visitedParams`, `failing`). Property theorems: `Props/C07Flow.lean`.
 -/
-import KinModel.Request
-namespace KinModel.Request
+import KinModel.RequestFlow
+namespace KinModel.RequestFlow
+open KinModel.Request (In Param Opts Part overridden skipQuery)
 
-theorem In.str_inj (a b : In) : a.str = b.str ↔ a = b := by
+theorem locStr_inj (a b : In) : locStr a = locStr b ↔ a = b := by
   cases a <;> cases b <;> decide
 
 /-! ### `Parameters.GetByInAndName` -/
 
 theorem entryMatches_the (p q : Param) :
-    entryMatches [(.name, 1), (.loc, 0)] [p.field .loc, p.field .name] q = (q.name = p.name && q.loc = p.loc) := by
-  simp only [entryMatches, List.all_cons, List.all_nil, nthArg, Param.field, Bool.and_true]
+    entryMatches [(.name, 1), (.loc, 0)] [fieldOf p .loc, fieldOf p .name] q = (q.name = p.name && q.loc = p.loc) := by
+  simp only [entryMatches, List.all_cons, List.all_nil, nthArg, fieldOf, Bool.and_true]
   apply Bool.eq_iff_iff.mpr
-  simp only [Bool.and_eq_true, beq_iff_eq, Option.some.injEq, decide_eq_true_eq, In.str_inj]
+  simp only [Bool.and_eq_true, beq_iff_eq, Option.some.injEq, decide_eq_true_eq, locStr_inj]
   constructor
   · rintro ⟨h1, h2⟩; exact ⟨h1.symm, h2.symm⟩
   · rintro ⟨h1, h2⟩; exact ⟨h1.symm, h2.symm⟩
@@ -22,8 +23,8 @@ theorem entryMatches_the (p q : Param) :
 /-- the override lookup as the code performs it — `GetByInAndName(parameter.In, parameter.Name)` run through the
 program of `GetByInAndName` — finds an entry iff some operation parameter has the same name and the same location -/
 theorem runLookup_the (l : List Param) (p : Param) :
-    runLookup thePrograms.lookup l [p.field .loc, p.field .name] = some (overridden l p) := by
-  have h : l.any (entryMatches [(.name, 1), (.loc, 0)] [p.field .loc, p.field .name]) = overridden l p := by
+    runLookup thePrograms.lookup l [fieldOf p .loc, fieldOf p .name] = some (overridden l p) := by
+  have h : l.any (entryMatches [(.name, 1), (.loc, 0)] [fieldOf p .loc, fieldOf p .name]) = overridden l p := by
     unfold overridden
     congr 1
     funext q
@@ -280,4 +281,4 @@ theorem run_eq_direct (o : Opts) (op : Op) (env : Env) :
     | false =>
       simp [handle, finish]
 
-end KinModel.Request
+end KinModel.RequestFlow
